@@ -2,6 +2,12 @@
 and the signature function that labels a failing case for known_findings.jsonl."""
 
 PROPS = {
+    'C17': {
+        'families': [('c17', 150, 1500)],
+        'rule': 'random UnixFS DAGs built block by block (plain and HAMT-sharded directories, raw / inline / chunked files incl. a chunk missing from the archive, symlinks, absent blocks, undecodable nodes, nesting depth <= 3) over a hostile name alphabet (.., ../x, a/b, /abs, empty, ., x/../.., repeated names, a symlink followed by an entry of the same name) and hostile symlink targets (absolute into the sandbox, relative escapes, dangling, ., .., /), 1-3 roots incl. file / raw / missing roots, CARv1 and CARv2; extracted by lib.ExtractToDir root by root (the CLI loop) into a real sandbox directory: output directory empty / pre-populated with files, directories and symlinks / reached through a symlink / missing / a regular file; the engine trace (what go-unixfsnode hands to extractDir) is recorded by a dry walk and given to the model, which must predict the verdict and the WHOLE resulting tree (names, kinds, contents, link targets) of the sandbox; S: nothing outside the resolved output directory differs from the snapshot taken before; distinct = distinct script text',
+        'trusted': ['the file-system model = Linux semantics of mkdir/open(O_CREAT|O_TRUNC)/symlink/stat/lstat/readlink for trees of directories, files and symlinks (validated on every run: the model predicts the full sandbox tree of the real extraction)', 'go-unixfsnode / go-codec-dagpb (the engine is a parameter: its trace is an input of the model)'],
+        'assumptions': ['no hard links, mount points or bind mounts inside the output directory; nobody else modifies the tree during extraction; names without NUL bytes and within NAME_MAX; absolute output directory'],
+    },
     'C15': {
         'families': [('c15', 40, 400)],
         'rule': 'random DAGs (dag-cbor nodes with raw leaves, shared subtrees, repeated links, depth 1-3; go-merkledag ProtoNode DAGs with repeated roots for WriteCar) x selectors {explore-all recursive, depth-limited, field path} x {AllowDuplicatePuts (link-visit-once off), data/index padding, index codec or none, link budget}; the REAL load sequence is recorded through an instrumented LinkSystem / NodeGetter and handed to the model, which must predict the bytes, the announced and returned sizes, the header fields and the callback offsets of NewSelectiveWriter.WriteTo, TraverseV1, TraverseToFile, SelectiveCar.Write/Prepare/Dump and WriteCar; distinct = distinct script text',
@@ -160,6 +166,8 @@ def signature(pid, script, I, S):
         return 'C09/' + toks.get('ep', '?') + '-panic-alloc-or-class'
     if pid == 'C08':
         return 'C08/' + toks.get('api', '?') + '-concurrent-run-' + ('race' if 'race=1' in I else 'inconsistent')
+    if pid == 'C17':
+        return 'C17/extract-writes-outside-output-dir'
     if pid == 'C15':
         return 'C15/' + toks.get('kind', '?') + '-output-or-size-differs'
     if pid == 'C20':
